@@ -472,6 +472,40 @@ func optionSemantics(w *World, r *Report, prop string) {
 				}
 				return
 			}
+			// a helper kept as a function value (`isTrue := func(val string) bool {...}`, called directly or from the closures that
+			// capture the variable): when every function the value can be is known, what they return
+			if x.Call.StaticCallee() == nil && !x.Call.IsInvoke() {
+				if _, isBuiltin := x.Call.Value.(*ssa.Builtin); !isBuiltin {
+					targets, complete := w.fnValueTargets(x.Call.Value, bs)
+					followed := complete && len(targets) > 0
+					for _, h := range targets {
+						if pkgOfFunc(h) != w.Model || h.Blocks == nil {
+							followed = false
+						}
+					}
+					if followed {
+						for _, h := range targets {
+							nb := bindings{}
+							for k, val := range bs {
+								nb[k] = val
+							}
+							for i, p := range h.Params {
+								if i < len(x.Call.Args) {
+									nb[p] = x.Call.Args[i]
+								}
+							}
+							for _, b := range h.Blocks {
+								if ret, ok := b.Instrs[len(b.Instrs)-1].(*ssa.Return); ok {
+									for _, rv := range ret.Results {
+										flow(rv, nb, fa, depth+1, map[ssa.Value]bool{})
+									}
+								}
+							}
+						}
+						return
+					}
+				}
+			}
 			for _, a := range x.Call.Args {
 				flow(a, bs, fa, depth+1, seen)
 			}
@@ -520,7 +554,10 @@ func optionSemantics(w *World, r *Report, prop string) {
 		}
 		var members map[int]ssa.Value
 		known := false
-		switch v := stripIdentity(st.Val).(type) {
+		// a record handed to a helper by value (the receiver of `padding.IsDefault()` kept in a local of the helper): the copy is the
+		// record of the caller that is being followed
+		val := stripIdentity(resolveParamChain(st.Val, bs))
+		switch v := val.(type) {
 		case *ssa.Const:
 			members, known = map[int]ssa.Value{}, true
 		case *ssa.UnOp:
